@@ -23,7 +23,7 @@ RRof(i) == Vocab[i].rr
 IsPtrId(i) == Vocab[i].ptr
 INSTANCE Cache
 
-Bids == 1..8
+Bids == 1..32
 PurgeEvery == 10000
 
 VARIABLES tid, l, s
